@@ -437,22 +437,21 @@ inductive Console where
   | narrow
   /-- a narrow encoding with `errors='replace'` / `'backslashreplace'`: every write is accepted -/
   | lossy
-  /-- a stream whose `k`-th write (counted from 1 over the stream's life) raises `OSError`; all others are accepted -/
+  /-- a stream that fails ONE evaluation call: the `k`-th call that writes to it (counted from 1 over the stream's
+      life) meets a failing write — its first write, or the newline of its first `print` (`OSError` / `ValueError`);
+      every other write is accepted.  Counted per call, not per write: how many lines a call prints is not modelled. -/
   | failAt (k : Nat)
   deriving DecidableEq, Repr
 
-/-- One `print(line)` = two writes (the text, then the newline).  `written` = writes the stream has seen so far,
-    `surrogate` = the text holds a lone surrogate.  Result: (the print raises, writes seen afterwards). -/
+/-- The progress line of one call.  `written` = calls that have written to the stream so far, `surrogate` = the text
+    holds a lone surrogate.  Result: (the print raises, calls that have written afterwards). -/
 def Console.print (c : Console) (written : Nat) (surrogate : Bool) : Bool × Nat :=
   match c with
-  | .utf8 => if surrogate then (true, written) else (false, written + 2)
-  | .closed => (true, written)
-  | .narrow => (true, written)
-  | .lossy => (false, written + 2)
-  | .failAt k =>
-    if written + 1 = k then (true, written + 1)
-    else if written + 2 = k then (true, written + 2)
-    else (false, written + 2)
+  | .utf8 => (surrogate, written + 1)
+  | .closed => (true, written + 1)
+  | .narrow => (true, written + 1)
+  | .lossy => (false, written + 1)
+  | .failAt k => (written + 1 = k, written + 1)
 
 inductive Outcome where
   /-- a `MetabolicResult`; `rosInc` = the error counter was incremented; `path` = `result.pathway` -/
@@ -496,19 +495,19 @@ def metabolize (T : Tables) (env : Env) (cfg : Cfg) (latched : Bool) (detect : P
 /-- the progress line is reached: the call passed both guards on a non-silent engine -/
 def printReached (cfg : Cfg) (latched : Bool) (len : Nat) : Bool := !(len > cfg.maxLen) && !latched && !cfg.silent
 
-/-- What the console makes of one call: (`printRaises` of the call, writes the stream has seen after the call).  A call
+/-- What the console makes of one call: (`printRaises` of the call, calls that have written to the stream afterwards).  A call
     that does not reach the progress line writes nothing. -/
 def consoleStep (cfg : Cfg) (latched : Bool) (c : Console) (written : Nat) (len : Nat) (surrogate : Bool) : Bool × Nat :=
   if printReached cfg latched len then c.print written surrogate else (surrogate, written)
 
-/-- `metabolize` on a console: the console decides `printRaises`; second component = writes the stream has seen after
-    the call. -/
+/-- `metabolize` on a console: the console decides `printRaises`; second component = calls that have written to the
+    stream after the call. -/
 def metabolizeOn (T : Tables) (env : Env) (cfg : Cfg) (latched : Bool) (detect : Pathway) (c : Console) (written : Nat)
     (inp : Inp) (forced : Option Pathway) : (List Act × Outcome) × Nat :=
   let rw := consoleStep cfg latched c written inp.len inp.printRaises
   (metabolize T env cfg latched detect ⟨inp.len, inp.parsed, inp.beta, rw.1⟩ forced, rw.2)
 
-/-- A history of calls on ONE engine and ONE console stream (the stream's write count runs through the history).  The
+/-- A history of calls on ONE engine and ONE console stream (the stream's count of writing calls runs through the history).  The
     error counter is the environment's here (`latched i` = the engine is latched at call `i`). -/
 def historyOn (T : Tables) (env : Env) (cfg : Cfg) (detect : Inp → Pathway) (c : Console) :
     Nat → List (Bool × Inp × Option Pathway) → List Outcome
